@@ -134,6 +134,17 @@ class World(object):
             out = "ValueError" if self.from_checks(ex) else "other:" + repr(ex)
         return out, bool(self.xfab.CHECKS.activated)
 
+    def do_other_instance(self, value):
+        """a private _checkState object: must not influence the package-wide switch"""
+        from xfab import checks
+        try:
+            o = checks._checkState()
+            o.activated = value
+            out = "ok"
+        except Exception as ex:
+            out = "ValueError" if self.from_checks(ex) else "other:" + repr(ex)
+        return out, bool(self.xfab.CHECKS.activated)
+
     def do_call(self, m, f, c, args, valid):
         mod = self.mods[m]
         try:
@@ -183,6 +194,9 @@ def replay_behaviour(w, hist, v, origin):
         if e["ev"] == "assign":
             out, sw = w.do_assign(w.assign_value(e["v"]))
             desc = "CHECKS.activated = %r" % (w.assign_value(e["v"]),)
+        elif e["ev"] == "other_instance":
+            out, sw = w.do_other_instance(w.assign_value(e["v"]))
+            desc = "checks._checkState().activated = %r (a second instance)" % (w.assign_value(e["v"]),)
         else:
             key = (e["m"] if e["f"] in ("ubi_to_u", "ubi_to_u_and_eps", "ub_to_u_b") else "", e["f"], e["c"])
             if key not in reuse:
@@ -233,6 +247,7 @@ def record_traces(w, n, maxlen, seed):
             calls += [(m, f, c) for c in cs]
     calls += [("symmetry", "Umis", c) for c in ["valid64", "valid32", "nonorth", "nonorth2", "detm1"]]
     ev = st.one_of(st.sampled_from(assign_vals).map(lambda x: ("assign", x)),
+                   st.sampled_from(["True", "False", "int1"]).map(lambda x: ("other", x)),
                    st.sampled_from(calls).map(lambda x: ("call", x)))
     traces = []
 
@@ -248,6 +263,9 @@ def record_traces(w, n, maxlen, seed):
             if kind == "assign":
                 out, sw = w.do_assign(w.assign_value(x))
                 tr.append({"ev": "assign", "v": x, "out": out, "sw": sw})
+            elif kind == "other":
+                out, sw = w.do_other_instance(w.assign_value(x))
+                tr.append({"ev": "other_instance", "v": x, "out": out, "sw": sw})
             else:
                 m, f, c = x
                 key = (m if f in ("ubi_to_u", "ubi_to_u_and_eps", "ub_to_u_b") else "", f, c)
@@ -379,7 +397,7 @@ def run(tier, seed):
            "behaviours_replayed": nb, "impl_traces_validated": len(good), "impl_traces_accepted": acc,
            "suite_trace_events_after_compression": len(suite) if suite is not None else 0,
            "exhaustive": True,
-           "rule": "R: every behaviour of Checks.tla with %d events (69 events: 10 assignment values, 59 guarded calls x input "
+           "rule": "R: every behaviour of Checks.tla with %d events (72 events: 10 assignment values, 3 second-instance assignments, 59 guarded calls x input "
                    "classes) + simulated behaviours of 14 events; T: hypothesis histories of <= 30 events recorded from the real "
                    "package and validated by TLC against Trace_Checks.tla" % (2 if tier == "quick" else 3)}
     return v.finish("model_checking", cov, ASSUME)
